@@ -2,7 +2,17 @@
 
 package verifier
 
+import "github.com/nuts-foundation/go-leia/v4"
+
 // C01: in-package shim (export_test pattern) that lets the external C01 harness (package verifier_test) call the unexported
 // case-variant guard of jsonldProof directly.
 var VerifCaseVariantMember = caseVariantMember
 var VerifFoldRune = foldRune
+
+// deepening round 3: the revocation lookup on a bare verifier over a given store (IsRevoked / GetRevocation use v.store only), and a raw
+// insert into the real store's revocation collection (a stored document that does not decode cannot be made through StoreRevocation)
+func VerifRevLookup(s Store) Verifier { return &verifier{store: s} }
+
+func VerifAddRawRevocation(s Store, doc []byte) error {
+	return s.(*leiaVerifierStore).revocationCollection().Add([]leia.Document{doc})
+}
